@@ -1,113 +1,122 @@
 //go:build go1.21
 
 // Package vuatomic mirrors the subset of go.uber.org/atomic the repository
-// uses; every operation is a scheduling point. Zero values are usable.
+// uses; every operation is a scheduling point. Zero values are usable. The
+// values are kept in real atomics, so the shims are race free in the
+// free-running race pass as well.
 package vuatomic
 
 import (
+	"sync/atomic"
+
 	"github.com/samaritan-proxy/samaritan/verifrt/sched"
 )
 
-type Bool struct{ v bool }
+type Bool struct{ v atomic.Bool }
 
-func NewBool(v bool) *Bool   { return &Bool{v: v} }
-func (b *Bool) Load() bool   { sched.Op("atomic-load", b); return b.v }
-func (b *Bool) Store(v bool) { sched.Op("atomic-store", b); b.v = v }
+func NewBool(v bool) *Bool {
+	b := &Bool{}
+	b.v.Store(v)
+	return b
+}
+func (b *Bool) Load() bool   { sched.Op("atomic-load", b); return b.v.Load() }
+func (b *Bool) Store(v bool) { sched.Op("atomic-store", b); b.v.Store(v) }
 func (b *Bool) CAS(old, new bool) bool {
 	sched.Op("atomic-cas", b)
-	if b.v == old {
-		b.v = new
-		return true
-	}
-	return false
+	return b.v.CompareAndSwap(old, new)
 }
-func (b *Bool) Swap(new bool) bool { sched.Op("atomic-swap", b); o := b.v; b.v = new; return o }
-func (b *Bool) Toggle() bool       { sched.Op("atomic-toggle", b); o := b.v; b.v = !o; return o }
+func (b *Bool) Swap(new bool) bool { sched.Op("atomic-swap", b); return b.v.Swap(new) }
+func (b *Bool) Toggle() bool {
+	sched.Op("atomic-toggle", b)
+	for {
+		o := b.v.Load()
+		if b.v.CompareAndSwap(o, !o) {
+			return o
+		}
+	}
+}
 
-type Int32 struct{ v int32 }
+type Int32 struct{ v atomic.Int32 }
 
-func NewInt32(v int32) *Int32       { return &Int32{v: v} }
-func (i *Int32) Load() int32        { sched.Op("atomic-load", i); return i.v }
-func (i *Int32) Store(v int32)      { sched.Op("atomic-store", i); i.v = v }
-func (i *Int32) Add(n int32) int32  { sched.Op("atomic-add", i); i.v += n; return i.v }
-func (i *Int32) Sub(n int32) int32  { sched.Op("atomic-add", i); i.v -= n; return i.v }
+func NewInt32(v int32) *Int32 {
+	i := &Int32{}
+	i.v.Store(v)
+	return i
+}
+func (i *Int32) Load() int32        { sched.Op("atomic-load", i); return i.v.Load() }
+func (i *Int32) Store(v int32)      { sched.Op("atomic-store", i); i.v.Store(v) }
+func (i *Int32) Add(n int32) int32  { sched.Op("atomic-add", i); return i.v.Add(n) }
+func (i *Int32) Sub(n int32) int32  { sched.Op("atomic-add", i); return i.v.Add(-n) }
 func (i *Int32) Inc() int32         { return i.Add(1) }
 func (i *Int32) Dec() int32         { return i.Sub(1) }
-func (i *Int32) Swap(n int32) int32 { sched.Op("atomic-swap", i); o := i.v; i.v = n; return o }
+func (i *Int32) Swap(n int32) int32 { sched.Op("atomic-swap", i); return i.v.Swap(n) }
 func (i *Int32) CAS(old, new int32) bool {
 	sched.Op("atomic-cas", i)
-	if i.v == old {
-		i.v = new
-		return true
-	}
-	return false
+	return i.v.CompareAndSwap(old, new)
 }
 
-type Int64 struct{ v int64 }
+type Int64 struct{ v atomic.Int64 }
 
-func NewInt64(v int64) *Int64       { return &Int64{v: v} }
-func (i *Int64) Load() int64        { sched.Op("atomic-load", i); return i.v }
-func (i *Int64) Store(v int64)      { sched.Op("atomic-store", i); i.v = v }
-func (i *Int64) Add(n int64) int64  { sched.Op("atomic-add", i); i.v += n; return i.v }
-func (i *Int64) Sub(n int64) int64  { sched.Op("atomic-add", i); i.v -= n; return i.v }
+func NewInt64(v int64) *Int64 {
+	i := &Int64{}
+	i.v.Store(v)
+	return i
+}
+func (i *Int64) Load() int64        { sched.Op("atomic-load", i); return i.v.Load() }
+func (i *Int64) Store(v int64)      { sched.Op("atomic-store", i); i.v.Store(v) }
+func (i *Int64) Add(n int64) int64  { sched.Op("atomic-add", i); return i.v.Add(n) }
+func (i *Int64) Sub(n int64) int64  { sched.Op("atomic-add", i); return i.v.Add(-n) }
 func (i *Int64) Inc() int64         { return i.Add(1) }
 func (i *Int64) Dec() int64         { return i.Sub(1) }
-func (i *Int64) Swap(n int64) int64 { sched.Op("atomic-swap", i); o := i.v; i.v = n; return o }
+func (i *Int64) Swap(n int64) int64 { sched.Op("atomic-swap", i); return i.v.Swap(n) }
 func (i *Int64) CAS(old, new int64) bool {
 	sched.Op("atomic-cas", i)
-	if i.v == old {
-		i.v = new
-		return true
-	}
-	return false
+	return i.v.CompareAndSwap(old, new)
 }
 
-type Uint32 struct{ v uint32 }
+type Uint32 struct{ v atomic.Uint32 }
 
-func NewUint32(v uint32) *Uint32       { return &Uint32{v: v} }
-func (i *Uint32) Load() uint32         { sched.Op("atomic-load", i); return i.v }
-func (i *Uint32) Store(v uint32)       { sched.Op("atomic-store", i); i.v = v }
-func (i *Uint32) Add(n uint32) uint32  { sched.Op("atomic-add", i); i.v += n; return i.v }
-func (i *Uint32) Sub(n uint32) uint32  { sched.Op("atomic-add", i); i.v -= n; return i.v }
+func NewUint32(v uint32) *Uint32 {
+	i := &Uint32{}
+	i.v.Store(v)
+	return i
+}
+func (i *Uint32) Load() uint32         { sched.Op("atomic-load", i); return i.v.Load() }
+func (i *Uint32) Store(v uint32)       { sched.Op("atomic-store", i); i.v.Store(v) }
+func (i *Uint32) Add(n uint32) uint32  { sched.Op("atomic-add", i); return i.v.Add(n) }
+func (i *Uint32) Sub(n uint32) uint32  { sched.Op("atomic-add", i); return i.v.Add(^(n - 1)) }
 func (i *Uint32) Inc() uint32          { return i.Add(1) }
 func (i *Uint32) Dec() uint32          { return i.Sub(1) }
-func (i *Uint32) Swap(n uint32) uint32 { sched.Op("atomic-swap", i); o := i.v; i.v = n; return o }
+func (i *Uint32) Swap(n uint32) uint32 { sched.Op("atomic-swap", i); return i.v.Swap(n) }
 func (i *Uint32) CAS(old, new uint32) bool {
 	sched.Op("atomic-cas", i)
-	if i.v == old {
-		i.v = new
-		return true
-	}
-	return false
+	return i.v.CompareAndSwap(old, new)
 }
 
-type Uint64 struct{ v uint64 }
+type Uint64 struct{ v atomic.Uint64 }
 
-func NewUint64(v uint64) *Uint64       { return &Uint64{v: v} }
-func (i *Uint64) Load() uint64         { sched.Op("atomic-load", i); return i.v }
-func (i *Uint64) Store(v uint64)       { sched.Op("atomic-store", i); i.v = v }
-func (i *Uint64) Add(n uint64) uint64  { sched.Op("atomic-add", i); i.v += n; return i.v }
-func (i *Uint64) Sub(n uint64) uint64  { sched.Op("atomic-add", i); i.v -= n; return i.v }
+func NewUint64(v uint64) *Uint64 {
+	i := &Uint64{}
+	i.v.Store(v)
+	return i
+}
+func (i *Uint64) Load() uint64         { sched.Op("atomic-load", i); return i.v.Load() }
+func (i *Uint64) Store(v uint64)       { sched.Op("atomic-store", i); i.v.Store(v) }
+func (i *Uint64) Add(n uint64) uint64  { sched.Op("atomic-add", i); return i.v.Add(n) }
+func (i *Uint64) Sub(n uint64) uint64  { sched.Op("atomic-add", i); return i.v.Add(^(n - 1)) }
 func (i *Uint64) Inc() uint64          { return i.Add(1) }
 func (i *Uint64) Dec() uint64          { return i.Sub(1) }
-func (i *Uint64) Swap(n uint64) uint64 { sched.Op("atomic-swap", i); o := i.v; i.v = n; return o }
+func (i *Uint64) Swap(n uint64) uint64 { sched.Op("atomic-swap", i); return i.v.Swap(n) }
 func (i *Uint64) CAS(old, new uint64) bool {
 	sched.Op("atomic-cas", i)
-	if i.v == old {
-		i.v = new
-		return true
-	}
-	return false
+	return i.v.CompareAndSwap(old, new)
 }
 
 // Value mirrors go.uber.org/atomic.Value (sync/atomic.Value).
-type Value struct{ v interface{} }
+type Value struct{ v atomic.Value }
 
-func (v *Value) Load() interface{} { sched.Op("atomic-load", v); return v.v }
+func (v *Value) Load() interface{} { sched.Op("atomic-load", v); return v.v.Load() }
 func (v *Value) Store(x interface{}) {
-	if x == nil {
-		panic("sync/atomic: store of nil value into Value")
-	}
 	sched.Op("atomic-store", v)
-	v.v = x
+	v.v.Store(x)
 }
